@@ -3,10 +3,10 @@ package main
 // C02 — nothing is uploaded or recorded beyond what the consent mode allows.
 
 import (
-	"os"
 	"fmt"
 	"go/token"
 	"go/types"
+	"os"
 	"strings"
 
 	"golang.org/x/tools/go/ssa"
